@@ -116,8 +116,20 @@ func genC14Case(r *rand.Rand) C14Case {
 		}
 		return l[r.Intn(len(l))]
 	}
+	if r.Intn(4) == 0 {
+		// directed opening: a job runs (sync state stored), is deleted and defined again under the same id
+		c.Ops = append(c.Ops, C14Op{Kind: "batch", DS: "da", Ents: []model.Ent{gen.Entity(r, v, v.IDs[0]), gen.Entity(r, v, v.IDs[1])}},
+			C14Op{Kind: "addjob", Job: "job0"}, C14Op{Kind: "runjob", Job: "job0"}, C14Op{Kind: "deljob", Job: "job0"},
+			C14Op{Kind: "addjob", Job: "job0"}, C14Op{Kind: "runjob", Job: "job0"})
+		jobsLive["job0"] = true
+		tags["data"], tags["jobs"], tags["jobrun"], tags["job-redefined"] = true, true, true, true
+	}
 	for i := 0; i < n; i++ {
 		switch k := r.Intn(100); {
+		case k < 4:
+			// a read that mentions a URI of a namespace the hub has never seen (no write follows necessarily)
+			c.Ops = append(c.Ops, C14Op{Kind: "nsquery", To: fmt.Sprintf("http://ex.org/seen-by-query-%d/thing", r.Intn(4))})
+			tags["namespace-by-query"] = true
 		case k < 28:
 			ds := pick(live)
 			if ds == "" {
@@ -135,7 +147,7 @@ func genC14Case(r *rand.Rand) C14Case {
 				continue
 			}
 			live[nm] = true
-			c.Ops = append(c.Ops, C14Op{Kind: "create", DS: nm})
+			c.Ops = append(c.Ops, C14Op{Kind: "create", DS: nm, To: []string{"", "", "pubns", "proxy", "virtual"}[r.Intn(5)]})
 			tags["dsmgmt"] = true
 		case k < 40:
 			nm := pick(live)
@@ -352,8 +364,20 @@ func c14Apply(ctx *Ctx, id string, s *sdRun, sys *c14Sys, op C14Op) error {
 			return err
 		}
 		s.m.Apply(op.DS, op.Ents)
+	case "nsquery":
+		_, _ = sys.core.Store.GetEntity(op.To, nil, true)
+		_, _ = obs.Related(sys.core.Store, op.To, "*", false, nil, 0)
 	case "create":
-		if _, err := sys.core.Dsm.CreateDataset(op.DS, nil); err != nil {
+		var cfg *server.CreateDatasetConfig
+		switch op.To {
+		case "pubns":
+			cfg = &server.CreateDatasetConfig{PublicNamespaces: []string{gen.NsA, gen.NsP}}
+		case "proxy":
+			cfg = &server.CreateDatasetConfig{ProxyDatasetConfig: &server.ProxyDatasetConfig{RemoteURL: "http://localhost:1/datasets/" + op.DS, AuthProviderName: "none", TimeoutSeconds: 3}}
+		case "virtual":
+			cfg = &server.CreateDatasetConfig{VirtualDatasetConfig: &server.VirtualDatasetConfig{Transform: "ZnVuY3Rpb24gYnVpbGRfZW50aXRpZXMoKSB7fQ=="}}
+		}
+		if _, err := sys.core.Dsm.CreateDataset(op.DS, cfg); err != nil {
 			return err
 		}
 		s.m.Create(op.DS)
@@ -448,6 +472,7 @@ func c14Snapshot(s *sdRun, sys *c14Sys) map[string]string {
 		ds := sys.core.Dsm.GetDataset(d)
 		l, _ := obs.Listing(st, ds, 0)
 		sort.Slice(l, func(i, j int) bool { return l[i].ID < l[j].ID })
+		snap["dsconfig|"+d] = jsonStr(map[string]any{"proxy": ds.ProxyConfig, "virtual": ds.VirtualDatasetConfig, "publicNamespaces": ds.PublicNamespaces, "isProxy": ds.IsProxy(), "isVirtual": ds.IsVirtual()})
 		snap["list|"+d] = jsonStr(l) // includes recorded and internal ids
 		res, _ := ds.GetEntities("", 2)
 		if res != nil {
@@ -494,6 +519,13 @@ func c14Snapshot(s *sdRun, sys *c14Sys) map[string]string {
 		snap["job|"+j.ID] = jsonStr(j)
 		stt, err := sys.sched.GetJobState(j.ID)
 		snap["jobstate|"+j.ID] = jsonStr(stt) + fmt.Sprint(err)
+	}
+	// the stored sync state of every job id the histories use, defined at the moment or not (a job that is deleted
+	// and defined again continues from its stored token)
+	for k := 0; k < 3; k++ {
+		jid := fmt.Sprintf("job%d", k)
+		stt, err := sys.sched.GetJobState(jid)
+		snap["syncstate|"+jid] = jsonStr(stt) + fmt.Sprint(err)
 	}
 	hist := sys.sched.GetJobHistory()
 	sort.Slice(hist, func(i, j int) bool { return jsonStr(hist[i]) < jsonStr(hist[j]) })
